@@ -529,15 +529,19 @@ func c05Marker(c *core.Ctx) {
 			}
 		}
 	})
-	// loop header: the block holding the cursor Phi
+	// loop header: the block holding the cursor Phi (the lower bound of the range fetch)
 	var loopHead *ssa.BasicBlock
-	for _, b := range fn.Blocks {
-		for _, ins := range b.Instrs {
-			if p, ok := ins.(*ssa.Phi); ok && p.Comment == "fromBlock" {
-				loopHead = b
+	core.Instrs(fn, func(i ssa.Instruction) {
+		if call, ok := i.(*ssa.Call); ok && strings.HasSuffix(core.CallName(call), ").GetEventsByBlockRange") {
+			args := call.Call.Args
+			if !call.Call.IsInvoke() {
+				args = args[1:]
+			}
+			if p, ok := args[1].(*ssa.Phi); ok {
+				loopHead = p.Block()
 			}
 		}
-	}
+	})
 	n := 0
 	for _, r := range reports {
 		blocks := r.Call.Args[2]
